@@ -132,7 +132,8 @@ class Result:
 
     def from_log(self, log):
         self.digest = log.digest
-        self.shape = log.shape
+        if not self.shape:
+            self.shape = log.shape
         self.states |= log.states
         self.steps = log.seq
         return self
